@@ -3,7 +3,7 @@
 From Coq Require Import ZArith List Bool Lia ZifyBool Arith.
 From Centro Require Import Base.Sx Model.Lapjv Spec.Lapjv Proofs.LapjvCert Proofs.LapjvPhases Proofs.LapjvArr Proofs.LapjvRows
   Proofs.LapjvAugMarks Proofs.LapjvAugFlip Proofs.LapjvAugPred Proofs.LapjvAugRows Proofs.LapjvAugPrice Proofs.LapjvAugDist
-  Proofs.LapjvAugOpt Proofs.LapjvFixedPerm.
+  Proofs.LapjvAugOpt Proofs.LapjvFixedPerm Proofs.LapjvArrExt Proofs.LapjvBsearch.
 Import ListNotations.
 Open Scope Z_scope.
 
@@ -103,4 +103,16 @@ Proof.
   intros Hrange Hpairs Hcols HPM Hc2 He Her Hg E.
   rewrite (eps_irrelevant_on_grid g Fixed eps epsr k n tri He Her Hg) in E.
   apply (lapjv_fixed_optimal n tri Hrange Hpairs Hcols HPM Hc2 0 k x y u v); [lia|exact E].
+Qed.
+
+(* ---------------------------------------------------------------- the cost lookup of a popped column never fails *)
+
+Theorem aug_lookup_defined n tri x y v j :
+  (forall t, In t tri -> (t_i t < n)%nat /\ (t_j t < n)%nat) -> NoDup (map fst tri) ->
+  InvE n (rows_of n tri) x y v -> (j < n)%nat -> getn y j n <> n ->
+  exists c, cost_at (rowget (rows_of n tri) (getn y j n)) j = Some c.
+Proof.
+  intros Hrange Hpairs [_ [_ [_ [SL _]]]] Hj Ny.
+  destruct (SL j _ Hj eq_refl Ny) as [_ [_ [c [Hc _]]]].
+  destruct (cost_at_listed n tri (getn y j n) j (Fin c) Hpairs Hc) as [c' [E _]]. eauto.
 Qed.
